@@ -23,18 +23,21 @@ package pool
 //@ property C19
 
 //@ func New$1
+//@   params i
 //@   mode bv
 //@   requires i >= 0 && stepSize >= 1
 //@   panics_iff i > stepSize && i > pmath.maxintHeadBit
 //@   ensures result == ite(i <= stepSize, stepSize, pmath.CeilToPowerOfTwo(i))
 
 //@ func New
+//@   params max
 //@   mode bv
 //@   requires max <= pmath.maxintHeadBit
 //@   ensures inv(result) && result != nil
 //@   ensures covers: implies(max >= 1, result.stepSize * len(result.pool) >= max)
 
 //@ func (*Pool[T]).Get
+//@   params p size
 //@   mode bv
 //@   requires inv(p) && 0 <= size && size <= pmath.maxintHeadBit
 //@   requires SIall: forallint(i, forallv(x, T, forallint(s, SI(p, i, x, s))))
@@ -45,6 +48,7 @@ package pool
 //@   ensures once: nemitted() <= 1
 
 //@ func (*Pool[T]).Put
+//@   params p x size
 //@   mode bv
 //@   forall i0 int
 //@   forall x0 T
